@@ -20,6 +20,7 @@ PktEq(lg, ex) ==
                                /\ ("name" \in DOMAIN ex) => (lg.name = ex.name /\ lg.ch = ex.ch)
                                /\ ("who" \in DOMAIN ex)  => (ToSet(lg.who) = ex.who /\ Len(lg.who) = Cardinality(ex.who)
                                                              /\ lg.ch = ex.ch /\ lg.ev = ex.ev)
+         [] ex.t = "hist"   -> ToSet(lg.msgs) = ex.msgs /\ Len(lg.msgs) = Cardinality(ex.msgs)
          [] ex.t = "pres"   -> lg.ev = ex.ev /\ lg.ch = ex.ch /\ lg.who = ex.who /\ lg.user = ex.user
          [] OTHER           -> TRUE
 
@@ -86,6 +87,7 @@ TrPub     == IsEvent("pub")      /\ Publish(Ev.c, ReqOf(Ev), Ev.via, Ev.retain, 
 TrLink    == IsEvent("link")     /\ Link(Ev.c, Ev.name, Ev.name # "toolong", ReqOf(Ev), Ev.sub, 1) /\ Fin(Ev) /\ PendNext(Ev)
 TrPres    == IsEvent("presence") /\ Presence(Ev.c, Ev.k, Ev.w, Ev.syn, Ev.status, Ev.chg, 1) /\ Fin(Ev) /\ PendNext(Ev)
 TrRestart == IsEvent("restart")  /\ Restart /\ OutOK(Ev) /\ PendNext(Ev)
+TrHistory == IsEvent("history")  /\ HistoryReq(Ev.c, Ev.k, Ev.w, Ev.syn, Ev.last, Ev.win, 1) /\ Fin(Ev) /\ PendNext(Ev)
 TrEnd     == IsEvent("end")      /\ End(Ev.c) /\ Fin(Ev) /\ PendNext(Ev)
 (* C09: the broker is still there (the event exists), the hostile connection is closed or answered, everybody else is
    served exactly as the model says - in this step and in all later ones *)
@@ -98,7 +100,7 @@ TrConcDone == IsEvent("concdone") /\ UNCHANGED allvars /\ pend' = NoPend
 
 TraceInit == SessionInit /\ l = 1 /\ pend = NoPend /\ MarkInit
 (* a "broker-died" event (the process exited, hung or ran out of its memory ceiling) has no action: never explained *)
-TraceNext == TrReset \/ TrConnect \/ TrSub \/ TrUnsub \/ TrPub \/ TrLink \/ TrPres \/ TrEnd \/ TrHostile \/ TrCluster \/ TrConcDone \/ TrRestart \/ TrStranger
+TraceNext == TrReset \/ TrConnect \/ TrSub \/ TrUnsub \/ TrPub \/ TrLink \/ TrPres \/ TrEnd \/ TrHostile \/ TrCluster \/ TrConcDone \/ TrRestart \/ TrStranger \/ TrHistory
 MarkC     == Mark(l)
 TraceInv  == TrieIsHeld /\ NothingLeftBehind
 =============================================================================
